@@ -111,6 +111,15 @@ func (r *R) Violate(sig, detail string, witness any) {
 	r.findings = append(r.findings, Finding{Sig: sig, Detail: detail, Witness: witness})
 }
 
+// AttachWitness gives the first finding a witness if it has none yet.
+func (r *R) AttachWitness(w any) {
+	r.mu.Lock()
+	defer r.mu.Unlock()
+	if len(r.findings) > 0 && r.findings[0].Witness == nil {
+		r.findings[0].Witness = w
+	}
+}
+
 func (r *R) Violations() int {
 	r.mu.Lock()
 	defer r.mu.Unlock()
@@ -137,6 +146,11 @@ func (r *R) Done() Result {
 	r.mu.Lock()
 	defer r.mu.Unlock()
 	res := r.res
+	// late goroutines of a case may still count: hand out a private copy
+	res.Counters = make(map[string]int64, len(r.res.Counters))
+	for k, v := range r.res.Counters {
+		res.Counters[k] = v
+	}
 	if len(r.findings) > 0 {
 		res.Verdict = Violated
 		res.Sig = r.findings[0].Sig
